@@ -54,7 +54,7 @@ type C20Case struct {
 }
 
 func genC20(r *Rng) *C20Case {
-	cs := &C20Case{Cfg: EngCfg{Strict: r.Chance(0.15)}}
+	cs := &C20Case{Cfg: genCfg(r, 0.15)}
 	cs.Env = GenEnv(r.Fork(1), 0, 5)
 	g := NewGen(r.Fork(2), r.Range(4, 40))
 	if r.Chance(0.3) {
@@ -81,6 +81,7 @@ type c20Exec struct {
 }
 
 func c20Setup(cs *C20Case) (*c20Exec, Res) {
+	cs.Cfg.apply()
 	x := &c20Exec{cs: cs, src: Source(cs.Tree), b: cs.Env.Build(nil)}
 	x.eng = NewEngine(cs.Cfg)
 	names := make([]string, 0, len(cs.Inc))
